@@ -867,6 +867,152 @@ func c11FaultCase(p c11Pos, k c11Kind, e string, nest string) Case {
 		}}
 }
 
+// c11ModKinds: `%` works on the INTEGER PARTS of its operands, so a divisor that is not zero but
+// lies strictly between -1 and 1 (0.5, -0.25, 1e-300, "5e-1", a quotient, a document field) is a
+// division by zero just like `% 0`: a runtime error "divide by zero", never Go's own integer
+// division panic and never a silent value. Divisors as literals, negated literals, numeric strings
+// in every spelling strconv accepts, non-numeric strings / false / null (they count as 0), computed
+// values and variables; dividends of every kind; the remainder alone, stored, stored back into the
+// dividend (the language has no `%=`: `x = x % d` is its compound form) and inside a larger
+// arithmetic expression.
+func c11ModKinds() []c11Kind {
+	type dv struct {
+		name, expr string
+		self       bool
+	}
+	divs := []dv{
+		{"literal 0.5", "0.5", true}, {"literal 0.25", "0.25", true}, {"literal 0.999999", "0.999999", true}, {"literal 0.000001", "0.000001", true},
+		{"literal 0.0", "0.0", true}, {"literal 00.50", "00.50", true},
+		{"negated literal -0.5", "-0.5", true}, {"negated literal -0.999", "(-0.999)", true}, {"negative zero", "(-0)", true},
+		{"string 0.5", "\"0.5\"", true}, {"string -0.25", "\"-0.25\"", true}, {"string 1e-300", "\"1e-300\"", true}, {"string 5e-1", "\"5e-1\"", true},
+		{"string .5", "\".5\"", true}, {"string +0.9", "\"+0.9\"", true}, {"string hex float 0x1p-2", "\"0x1p-2\"", true}, {"string -0", "\"-0\"", true},
+		{"string 4.9e-324", "\"4.9e-324\"", true}, {"string -9.99e-1", "\"-9.99e-1\"", true},
+		{"string not numeric", "\"abc\"", true}, {"string blank-padded (counts as 0)", "\" 0.5\"", true}, {"empty string", "\"\"", true}, {"false", "false", true}, {"null", "null", true}, {"unset variable", "nosuchvar", true},
+		{"computed 1 / 3", "(1 / 3)", true}, {"computed 1 - 0.5", "(1 - 0.5)", true}, {"computed 0.5 * 0.5", "(0.5 * 0.5)", true}, {"computed -1 / 4", "(-1 / 4)", true},
+		{"computed tiny 1 / 10000000000 / 10000000000", "(1 / 10000000000 / 10000000000)", true}, {"computed 3 % 2 - 0.5", "(3 % 2 - 0.5)", true},
+		{"computed num(\"0.75\")", "num(\"0.75\")", true}, {"computed string concatenation \"0\" + \".5\"", "(\"0\" + \".5\")", true},
+		{"computed (0.4).round() + 0.3", "((0.4).round() + 0.3)", true}, {"computed [0.5][0]", "[0.5][0]", true}, {"computed {d: 0.125}.d", "{d: 0.125}.d", true},
+		{"assigned in place (t8 = 0.5)", "(t8 = 0.5)", true}, {"match value", "(match (1) { _ => 0.75 })", true},
+		{"variable sx - 4.5", "(sx - 4.5)", false}, {"variable cx / 7", "(cx / 7)", false}, {"variable mh", "mh", false}, {"variable ms (string)", "ms", false},
+		{"variable member mo.d", "mo.d", false}, {"variable element ma[1]", "ma[1]", false}, {"function result half()", "half()", false}, {"parameter through g", "g(0.5)", false},
+	}
+	forms := []struct {
+		name, form string
+		self       bool
+	}{
+		{"7 % D", "(7 % D)", true},
+		{"7.9 % D", "(7.9 % D)", true},
+		{"-3 % D", "(-3 % D)", true},
+		{"0 % D", "(0 % D)", true},
+		{"string dividend", "(\"7\" % D)", true},
+		{"stored", "(t9 = 7 % D)", true},
+		{"compound form x = x % D", "(t9 = (t9 = 7) % D)", true},
+		{"inside a sum", "(1 + 7 % D * 2)", true},
+		{"chained % % ", "(9 % 5 % D)", true},
+		{"variable dividend", "(cx % D)", false},
+		{"fraction % fraction", "(0.5 % D)", true},
+	}
+	var ks []c11Kind
+	for di, d := range divs {
+		for fi, f := range forms {
+			// every divisor with the plain form; the other forms rotate over the divisors
+			if fi != 0 && (di+fi)%4 != 0 {
+				continue
+			}
+			ks = append(ks, c11Kind{name: "mod-by-fraction/" + d.name + " in " + f.name, expr: strings.ReplaceAll(f.form, "D", d.expr), self: d.self && f.self})
+		}
+	}
+	return ks
+}
+
+// the globals the non-self-contained divisors of c11ModKinds use
+const c11ModPrelude = "function half() { return 0.5 }\nBEGIN { mh = 0.5; ms = \"-0.25\"; mo = {d: 0.125}; ma = [3, 0.75] }\n"
+
+// c11ModControls: the neighbours that are NOT faults (integer part of the divisor not zero):
+// expression and the line it prints
+var c11ModControls = [][2]string{
+	{"7 % 1", "0"}, {"7 % 1.5", "0"}, {"7 % -1", "0"}, {"7 % -1.9", "0"}, {"7.9 % 2.5", "1"}, {"-7 % 2", "-1"}, {"7 % \"2.9\"", "1"}, {"7 % \"1e0\"", "0"},
+	{"0.5 % 3", "0"}, {"0 % 1", "0"}, {"7 % (0.5 + 0.5)", "0"}, {"7 % true", "0"}, {"9 % 5 % 3", "1"}, {"7 % \"-1.0\"", "0"}, {"7 / 0.5", "14"}, {"1 / 0.25 % 3", "1"},
+}
+
+// c11GenModDocument: the divisor comes out of the input document. Two records: in the first
+// every field is a harmless divisor, in the second the same fields are fractions in (-1, 1)
+// (numbers, numeric strings, nested), so the run must print everything of the first record and
+// stop inside the second.
+func c11GenModDocument(emit func(Case)) {
+	doc := `[{"h": 2, "n": -3, "s": "3", "e": "4e0", "a": [4, {"d": 5}], "z": 1}, {"h": 0.5, "n": -0.25, "s": "0.5", "e": "1e-300", "a": [1e-300, {"d": 0.125}], "z": 0.0}]`
+	files := []File{{Name: "in.json", Data: []byte(doc)}}
+	fields := []struct{ name, expr, sel string }{
+		{"number field", "$.h", "$[1].h"}, {"negative number field", "$.n", "$[1].n"}, {"string field", "$.s", "$[1].s"}, {"exponent string field", "$.e", "$[1].e"},
+		{"array element", "$.a[0]", "$[1].a[0]"}, {"nested member", "$.a[1].d", "$[1].a[1].d"}, {"index by name", "$[\"h\"]", "$[1][\"h\"]"}, {"zero with fraction digits", "$.z", "$[1].z"},
+		{"field through num()", "num($.s)", "num($[1].s)"}, {"field difference", "($.h - $.z + 0)", "($[1].h - 0.25)"},
+	}
+	forms := []struct{ name, form string }{{"7 % F", "(7 % F)"}, {"field % F", "($.h % F)"}, {"stored", "(dv = 7 % F)"}, {"x = x % F", "(dx = (dx = 9) % F)"}, {"inside a product", "(2 * (7 % F) + 1)"}}
+	poss := []struct{ name, prog, want string }{
+		{"document/rule-body", "{ print \"B\", $index; r = §; print \"A\", $index }\nEND { print \"E\" }", "B 0\nA 0\nB 1\n"},
+		{"document/rule-pattern", "§ > -9 { print \"P\", $index }\n{ print \"b\", $index }\nEND { print \"E\" }", "P 0\nb 0\n"},
+		{"document/print-argument", "{ print \"B\", $index; print \"v\", § > -9; print \"A\" }", "B 0\nv true\nA\nB 1\n"},
+		{"document/function-called-from-rule", "function fd() { print \"F\"; return § }\n{ print \"B\", $index; r = fd(); print \"A\", $index }", "B 0\nF\nA 0\nB 1\nF\n"},
+		{"document/condition", "{ print \"B\", $index; if (§ < 99) { print \"T\" } else { print \"N\" } }\nENDFILE { print \"EF\" }", "B 0\nT\nB 1\n"},
+		{"document/array-literal-element", "{ print \"B\", $index; r = [side(\"S\"), §, side(\"A9\")]; print \"A\" }", "B 0\nS\nA9\nA\nB 1\nS\n"},
+		{"document/loop-over-the-fields", "{ print \"B\", $index; for (k, v in $) { if (v is number) { print k; r = 7 % v } } }", "B 0\nh\nn\nz\nB 1\nh\n"},
+	}
+	for _, ps := range poss {
+		// fault-free control: the first record alone
+		{
+			prog := c11Prelude + strings.ReplaceAll(ps.prog, "§", "(7 % $.h)")
+			want := ps.want
+			emit(Case{Req: RunReq(prog, nil, []File{{Name: "in.json", Data: []byte(doc[:strings.Index(doc, ", {\"h\": 0.5")] + "]")}}, false), Fields: c11Fields,
+				Meta: metaProg(prog, "position", ps.name, "fault-kind", "(none: only the record with harmless divisors)", "row", "(harmless control)", "col", ps.name),
+				Oracle: func(i Resp) string {
+					if i["class"] != "ok" || !strings.HasPrefix(string(i.Bytes("out")), strings.TrimSuffix(want, "B 1\n")[:4]) {
+						return fmt.Sprintf("generator: the fault-free control of position %s must succeed, got %s", ps.name, i.String())
+					}
+					return ""
+				}})
+		}
+		for fi, fd := range fields {
+			for mi, fm := range forms {
+				if ps.name == "document/loop-over-the-fields" && (fi > 0 || mi > 0) {
+					continue
+				}
+				if mi != 0 && (fi+mi)%3 != 0 {
+					continue
+				}
+				e := strings.ReplaceAll(fm.form, "F", fd.expr)
+				k := c11Kind{name: "mod-by-fraction/document " + fd.name + " in " + fm.name}
+				c := c11FaultCase(c11Pos{name: ps.name, want: ps.want}, k, e, "")
+				prog := c11Prelude + strings.ReplaceAll(ps.prog, "§", e)
+				c.Req = RunReq(prog, nil, files, false)
+				c.Meta = metaProg(prog, "fault-kind", k.name, "fault-expression", e, "position", ps.name, "expected-output", ps.want, "input", doc, "row", k.name, "col", ps.name)
+				emit(c)
+			}
+		}
+	}
+	// in a -r selector ($ is the whole document there) and in END through a saved record
+	selProg := "BEGIN { print \"B1\" }\n{ print \"A1\", $ }\nEND { print \"A2\" }"
+	for _, fd := range fields {
+		for _, sel := range []string{"(7 % " + fd.sel + ")", "[$[0].h, 7 % " + fd.sel + "]", "match ($) { _ => { print \"B2\"; dq = 9 % " + fd.sel + "; print \"A3\" } }"} {
+			k := c11Kind{name: "mod-by-fraction/document " + fd.name + " in a selector"}
+			want := "B1\n"
+			if strings.HasPrefix(sel, "match") {
+				want = "B1\nB2\n"
+			}
+			c := c11FaultCase(c11Pos{name: "document/selector", want: want}, k, sel, "")
+			c.Req = RunReq(selProg, []string{sel}, files, false)
+			c.Meta = metaProg(selProg, "selectors", sel, "fault-kind", k.name, "position", "document/selector", "expected-output", want, "input", doc, "row", k.name, "col", "document/selector")
+			emit(c)
+		}
+		e := strings.ReplaceAll(fd.expr, "$", "last")
+		prog := "{ last = $ }\nEND { print \"E1\"; r = 7 % " + e + "; print \"A1\" }\nEND { print \"A2\" }"
+		k := c11Kind{name: "mod-by-fraction/document " + fd.name + " saved for END"}
+		c := c11FaultCase(c11Pos{name: "document/END-saved-record", want: "E1\n"}, k, e, "")
+		c.Req = RunReq(prog, nil, files, false)
+		c.Meta = metaProg(prog, "fault-kind", k.name, "position", "document/END-saved-record", "expected-output", "E1\n", "input", doc, "row", k.name, "col", "document/END-saved-record")
+		emit(c)
+	}
+}
+
 func c11GenFaults(r *rand.Rand, tier string, emit func(Case)) {
 	ps := c11Positions()
 	for _, p := range ps {
@@ -957,6 +1103,38 @@ func c11GenFaults(r *rand.Rand, tier string, emit func(Case)) {
 	lit("match/case-pattern-array-length-differs (not evaluated)", "r = match ([1, 2]) { [\"\\q\"] => 1, _ => 2 }\nprint r", "B1\n2\nA1\n", false)
 	lit("match/case-pattern-unset-subject (literal still evaluated)", "r = match (unsetvar) { \"\\q\" => 1, _ => 2 }", "B1\n", true)
 
+	// % with a divisor whose integer part is zero: every kind in a plain statement, as an operand, in
+	// a pattern, in a function and in a selector, and at a sample of the other positions (thorough: at
+	// every position); the divisors that live in program globals get their prelude
+	modKinds := c11ModKinds()
+	for _, k := range modKinds {
+		for _, p := range ps {
+			if p.sels != nil && !k.self {
+				continue
+			}
+			if tier != "thorough" && p.name != "statement/BEGIN" && p.name != "operand/assign-rhs" && p.name != "pattern/operand" && p.name != "selector/whole" && p.name != "function/return-value" && p.name != "statement/rule-body-second-element" && !chance(r, 0.04) {
+				continue
+			}
+			q := p
+			if !k.self {
+				q.prog = c11ModPrelude + p.prog
+			}
+			emit(c11FaultCase(q, k, k.expr, ""))
+		}
+	}
+	c11GenModDocument(emit)
+	for _, mc := range c11ModControls {
+		prog := c11Prelude + "BEGIN { print \"B1\"; print " + mc[0] + "; print \"A1\" }"
+		want := "B1\n" + mc[1] + "\nA1\n"
+		emit(Case{Req: RunReq(prog, nil, c11Input, false), Fields: c11Fields, Meta: metaProg(prog, "position", "statement/BEGIN", "row", "(not a fault: integer part of the divisor is not zero)", "col", "statement/BEGIN"),
+			Oracle: func(i Resp) string {
+				if i["class"] != "ok" || string(i.Bytes("out")) != want {
+					return fmt.Sprintf("C11: `%s` is not a fault (the integer part of the divisor is not zero): expected success with %q, got %s", mc[0], want, i.String())
+				}
+				return ""
+			}})
+	}
+
 	// random deeper nesting of the fault inside expressions
 	n := tierN(tier, 1500, 150000)
 	stores := c11StoreKinds()
@@ -966,6 +1144,11 @@ func c11GenFaults(r *rand.Rand, tier string, emit func(Case)) {
 			k = pick(r, stores)
 		} else if chance(r, 0.25) {
 			k = pick(r, regexKinds)
+		} else if chance(r, 0.15) {
+			k = pick(r, modKinds)
+			for !k.self {
+				k = pick(r, modKinds)
+			}
 		}
 		if p.sels != nil && !k.self || k.slow && !chance(r, 0.1) {
 			continue
